@@ -124,7 +124,9 @@ def check_stats_shapes(run, ctx):
         if len(ins) == 1:
             k = ex.operand(ins[0][1]['args'][1])
             v = ex.operand(ins[0][1]['args'][2])
-            kk = k[2][0] if (k[0] == 'call' and k[2]) else k
+            IDENT = ('alloc::string::ToString::to_string', 'alloc::borrow::ToOwned::to_owned', 'core::convert::From::from', 'core::convert::Into::into',
+                     'alloc::str::<impl str>::to_owned', 'alloc::string::String::from', 'core::clone::Clone::clone')
+            kk = k[2][0] if (k[0] == 'call' and k[2] and k[1] in IDENT) else k  # the name as given: no case folding, trimming or other rewriting
             ok = kk == ('param', 1) and v == ('param', 2)
         if ok:
             run.ok('C15-S2', 'registry-register', 'stores the given stats under the given name')
@@ -1049,3 +1051,52 @@ def classify_name(call_expr):
         if m in QUEUE_VD and is_queue_ty(parse(st)):
             return QUEUE_VD[m]
     return None
+
+
+def check_positional_removals(run, ctx, rule='C04-P6'):
+    """`queue.remove(i)` removes what sits at position i *counted from the front*.  The index must therefore come from a
+    forward search of that same queue for a key (`queue.iter().position(|k| k == key)`) or be a random position below its
+    length: an index obtained from a reversed / partial / sorted-order search (`iter().rev()`, `as_slices().0`,
+    `binary_search`) designates another element - a foreign key loses its slot and the searched key keeps its own"""
+    n = 0
+    POSITION = 'core::iter::traits::iterator::Iterator::position'
+    for crate in (ctx.core, ctx.fx_sync, ctx.fx_async):
+        for body in crate.bodies.values():
+            if crate is not ctx.core and ctx.role(body) is None:
+                continue
+            ex = None
+            for bi, t in body.calls():
+                if callee_name(t) != N.VD + 'remove':
+                    continue
+                ex = ex or Expr(body)
+                n += 1
+                q = ex.operand(t['args'][0])
+                idx = strip_casts(ex.operand(t['args'][1]))
+                why = None
+                if idx[0] == 'call' and idx[1].startswith('fastrand::'):
+                    pass  # judged by C04-K2
+                else:
+                    root, names = field_path(idx)
+                    if names[-2:] == ['as:Some', '0'] and root[0] == 'call' and root[1] == POSITION:
+                        src = strip_casts(root[2][0])
+                        if not (src[0] == 'call' and src[1] == N.VD + 'iter' and src[2] and src[2][0] == q):
+                            why = 'the search does not run over `%s.iter()` from the front (it runs over %s)' % (show(q)[:40], show(src)[:80])
+                        else:
+                            # the predicate is an equality test
+                            cids = (root[4] or {}).get('closures') or []
+                            okp = False
+                            for cid in cids:
+                                cb = ctx.prog.bodies.get(cid)
+                                if cb is not None and any(callee_name(t2) == N.PARTIAL_EQ for _, t2 in cb.calls()) and not any(callee_name(t2) == N.PARTIAL_NE for _, t2 in cb.calls()):
+                                    okp = True
+                            if not okp:
+                                why = 'the search predicate is not an equality test with the key'
+                    else:
+                        why = 'the index is %s, not the result of `iter().position(|k| k == key)` on the same queue' % show(idx)[:100]
+                if why:
+                    run.bad(rule, '%s/index-not-from-forward-search' % ctx.label(body), '%s removes a queue element by position, but %s (%s): the element removed is not the key that was '
+                            'searched for' % (body.name, why, body.loc(bi)), site='%s (%s)' % (body.name, body.loc(bi)), oracle='order.iter().position(|k| k == key) -> order.remove(pos)')
+                else:
+                    run.ok(rule, '%s/bb%d' % (ctx.label(body), bi), 'index from a forward equality search of the same queue (or a random position)')
+    run.require(rule, 'positional queue removals', n, 8)
+    return n
